@@ -352,9 +352,11 @@ namespace pika::threads::detail {
             case execution::thread_schedule_hint_mode::thread:
             {
                 PIKA_DETAIL_DP(spq_deb<7>, set(msg, "HINT_THREAD"));
-                // @TODO. We should check that the thread num is valid
-                // Create thread on requested worker thread
-                thread_num = select_active_pu(l, data.schedulehint.hint);
+                // Create thread on requested worker thread. A hint that does not name one of
+                // the workers of this scheduler wraps around, it must not index the lookup
+                // tables below as it is.
+                thread_num = select_active_pu(
+                    l, static_cast<std::size_t>(data.schedulehint.hint) % num_workers_);
                 domain_num = d_lookup_[thread_num];
                 q_index = q_lookup_[thread_num];
                 break;
@@ -733,14 +735,16 @@ namespace pika::threads::detail {
             }
             case execution::thread_schedule_hint_mode::thread:
             {
-                // @TODO. We should check that the thread num is valid
-                // Create thread on requested worker thread
+                // Create thread on requested worker thread (hints wrap around, see
+                // create_thread)
                 PIKA_DETAIL_DP(spq_deb<5>, set(msg, "HINT_THREAD"));
                 PIKA_DETAIL_DP(spq_deb<5>,
                     debug(str<>("schedule_thread"), "received HINT_THREAD",
                         dec<3>(schedulehint.hint),
                         threadinfo<threads::detail::thread_id_ref_type*>(&thrd)));
-                thread_num = select_active_pu(l, schedulehint.hint, true /*allow_fallback*/);
+                thread_num = select_active_pu(l,
+                    static_cast<std::size_t>(schedulehint.hint) % num_workers_,
+                    true /*allow_fallback*/);
                 domain_num = d_lookup_[thread_num];
                 q_index = q_lookup_[thread_num];
                 break;
